@@ -185,6 +185,40 @@ def reap_twin(dead: List[bool], st: List[int]) -> bool:
     return True
 
 
+# ---- 2b. kill_worker / kill_workers / murder-style snapshots against any tracked/untracked x present/gone combination ------
+def kill_step(tracked: List[bool], present: List[bool], which: int, all_: bool) -> bool:
+    """
+    pre: len(tracked) == CASE["k"] and len(present) == CASE["k"] and 0 <= which < CASE["k"]
+    post: __return__
+    """
+    k = CASE["k"]
+    K = KS.Kernel()
+    arb = mk_arbiter(K, k, ages=list(range(1, k + 1)))
+    pids = list(K.order)
+    for i in range(k):
+        if not tracked[i]:
+            del arb.WORKERS[pids[i]]        # e.g. already reaped by a SIGCHLD handler that ran after the caller's snapshot
+        if not present[i]:
+            del K.procs[pids[i]]            # the process is gone and has been waited for: kill() says ESRCH
+    undo = KS.install(A, K)
+    try:
+        if all_:
+            snapshot = list(pids)           # what a caller iterating over an earlier copy would do
+            for p in snapshot:
+                arb.kill_worker(p, signal.SIGTERM)
+        else:
+            arb.kill_worker(pids[which], signal.SIGTERM)        # must not raise, whatever the combination
+    finally:
+        undo()
+    for i in range(k):
+        touched = all_ or i == which
+        if touched and not present[i] and pids[i] in arb.WORKERS:
+            return False                    # a worker whose process is gone must not stay tracked after the attempt
+        if present[i] and tracked[i] and pids[i] not in arb.WORKERS:
+            return False
+    return True
+
+
 # ---- 3. convergence of the real run() loop under schedules ----------------------------------------------
 SIGS = [0, int(signal.SIGTTIN), int(signal.SIGTTOU)]
 
@@ -304,6 +338,9 @@ OBLIGATIONS = [
     Ob("C03.reap", "reap", cases=[{"k": k} for k in (1, 2, 3)], timeout=300,
        bound="1..3 tracked workers, any subset dead, wait status from {0,9,15,6,256,512,768,1024}"),
     Ob("C03.reap.twin", "reap_twin", cases=[{"k": 2}], expect="refute", timeout=60),
+    Ob("C03.kill_step", "kill_step", cases=[{"k": k} for k in (1, 2, 3)], timeout=300,
+       bound="kill_worker on 1..3 workers in every tracked/untracked x process present/gone combination (never raises, forgets "
+             "workers whose process is gone)"),
     Ob("C03.converge", "converge",
        cases={"quick": [_conv(2, 1, 1, 1, 1, 2, 4), _conv(2, 2, 0, 1, 1, 2, 4), _conv(2, 0, 2, 0, 2, 2, 4, 2),
                         _conv(2, 1, 1, 1, 1, 0, 3)],
